@@ -305,6 +305,37 @@ def c07_7(c: Ctx) -> None:
                    'the de-duplicated name is not unique: the head of a UUIDv7 is a millisecond timestamp, so buses created close together get the same suffix and then share a name', node=a)
 
 
+@ob('C07.9', 'SIB', 'the library itself registers no forwarding handler that `_would_create_loop` does not recognise: the only recognised forward is the bound `dispatch` of another bus; a '
+    'function / closure defined in the library that calls `<bus>.dispatch(<its event>)` and is registered through `on()` is an ordinary handler to the recursion guard '
+    '(it raises at nesting depth 3 and the event is never delivered to, nor forwarded from, that bus)')
+def c07_9(c: Ctx) -> None:
+    n_regs = 0
+    for u in c.prog.units.values():
+        if u.module not in (SVC, MOD):
+            continue
+        for call in [x for x in own_nodes(u.node) if isinstance(x, ast.Call) and call_name(x) == 'on' and isinstance(x.func, ast.Attribute) and len(x.args) >= 2]:
+            h = call.args[1]
+            n_regs += 1
+            target = None
+            if isinstance(h, ast.Name):
+                target = next((v for v in c.prog.nested(u) if v.name == h.id), None) or c.prog.resolve_name_callee(h.id, u)
+            elif isinstance(h, ast.Lambda):
+                target = h
+            if target is None:
+                c.ok(where(u, call), f'{U(call)[:60]}: the registered handler is a value supplied by the caller')
+                continue
+            node = target.node if isinstance(target, Unit) else target
+            params = ([a.arg for a in node.args.args] if hasattr(node, 'args') else [])
+            fwd = [x for x in ast.walk(node) if isinstance(x, ast.Call) and call_name(x) == 'dispatch' and isinstance(x.func, ast.Attribute) and x.args and isinstance(x.args[0], ast.Name) and x.args[0].id in params]
+            if fwd:
+                c.fail(u, f'registers `{U(h)[:40]}`, which forwards its event with `{U(fwd[0])[:50]}`', 'a forwarding handler that is not a bound EventBus.dispatch is subject to the recursion guard: in a nested chain of '
+                       'depth 3 the guard raises "Infinite loop detected" and the event is neither handled nor forwarded by this bus', node=fwd[0])
+            else:
+                c.ok(where(u, call), f'{U(call)[:60]}: registers a library function that does not forward')
+    if n_regs == 0:
+        c.ok('bubus/*.py', 'the library registers no handler of its own through on()')
+
+
 @ob('C07.8', 'DOM', 'an event that reaches a bus a second time (a second forwarding route, a re-dispatch) runs no handler of that bus again, whatever state the first result ended in '
     '(same obligation as C01.5)')
 def c07_8(c: Ctx) -> None:
